@@ -54,7 +54,7 @@ ASSUMPTIONS = [
 MIN_LABELS = {"C11": {"one_target_changes": 0.3, "bounds_between_proposals": 0.3, "op_proposal": 0.5, "expiry": 0.05}}
 
 GROUPS = [frozenset({1, 2}), frozenset({3})]
-VALS = [None, -150.0, -60.0, -20.0, 0.0, 20.0, 60.0, 150.0, 500.0]
+VALS = [None, -150.0, -60.0, -20.0, -5.0, 0.0, 5.0, 20.0, 60.0, 150.0, 500.0]
 LOHI = [0.0, 50.0, 100.0, 200.0, 1000.0]
 
 
@@ -73,7 +73,7 @@ def _case(draw: Any, max_ops: int) -> dict[str, Any]:
     order = draw(st.permutations(list(range(1, prio + 1))))
     for a, p in zip(actors, order):
         a[2] = p
-    excl_mode = draw(st.integers(0, 4)) == 0
+    excl_mode = draw(st.integers(0, 4)) <= 1
     ops: list[Any] = []
     for g in range(ngroups):
         ops.append(["bounds", g, -draw(st.sampled_from(LOHI)) + 0.0, draw(st.sampled_from(LOHI)), 0.0, 0.0])
@@ -87,8 +87,8 @@ def _case(draw: Any, max_ops: int) -> dict[str, Any]:
             lo, hi = -draw(st.sampled_from(LOHI)) + 0.0, draw(st.sampled_from(LOHI))
             el = eu = 0.0
             if excl_mode:
-                el = -min(-lo, draw(st.sampled_from([0.0, 10.0, 30.0]))) + 0.0
-                eu = min(hi, draw(st.sampled_from([0.0, 10.0, 30.0])))
+                el = -min(-lo, draw(st.sampled_from([0.0, 10.0, 30.0, 50.0]))) + 0.0
+                eu = min(hi, draw(st.sampled_from([0.0, 10.0, 30.0, 50.0])))
             ops.append(["bounds", draw(st.integers(0, ngroups - 1)), lo, hi, el, eu])
         elif kind == "res":
             # the result answers the latest request of the group, or (stale result) one sent 1-2 requests earlier
@@ -97,6 +97,16 @@ def _case(draw: Any, max_ops: int) -> dict[str, Any]:
                         draw(st.sampled_from([0, 0, 0, 1, 1, 2]))])
         else:
             ops.append(["adv", draw(st.sampled_from([0.5, 1.0, 2.0, 30.0, 59.0, 61.0, 120.0]))])
+    if excl_mode and draw(st.booleans()):
+        # scripted opening: asymmetric exclusion zone, a small regular preference inside it, an operating-point
+        # preference that saturates at a system bound (the shifted bounds of the regular group then end at 0)
+        reg = next(i for i, a in enumerate(actors) if a[0] == 0 and not a[1])
+        opa = next(i for i, a in enumerate(actors) if a[0] == 0 and a[1])
+        sign = draw(st.sampled_from([1.0, -1.0]))
+        el, eu = draw(st.sampled_from([(-50.0, 10.0), (-10.0, 50.0), (-30.0, 10.0), (-10.0, 30.0)]))
+        opening = [["bounds", 0, -100.0, 100.0, el, eu], ["prop", reg, draw(st.sampled_from([-5.0, 5.0])), None, None],
+                   ["prop", opa, sign * draw(st.sampled_from([100.0, 150.0, 500.0])), None, None]]
+        ops = ops[:ngroups] + opening + ops[ngroups:]
     return {"ngroups": ngroups, "actors": actors, "ops": ops}
 
 
